@@ -509,8 +509,12 @@ static uint64_t run_seed_for(uint64_t batch_seed, const std::string& prop, int64
     return mix64(mix64(batch_seed, prop_hash(prop)), uint64_t(index)) >> 1;
 }
 
+// One worker = one process that forks a fresh child per simulated run (copy-on-write image with the engine tables
+// initialised and nothing else): process-wide state a run leaves behind (function-local statics, sanitizer report
+// de-duplication, a stuck thread) cannot leak into the next run, so a run is a function of its seed alone.
 static void worker_loop(const std::string& prop, const std::string& tier, uint64_t batch_seed, int64_t first, int64_t stride, int64_t total, const std::string& outpath, double deadline)
 {
+    process_init();
     FILE* f = fopen(outpath.c_str(), "a");
     if (!f) _exit(3);
     for (int64_t i = first; i < total; i += stride)
@@ -519,11 +523,22 @@ static void worker_loop(const std::string& prop, const std::string& tier, uint64
         uint64_t seed = run_seed_for(batch_seed, prop, i);
         fprintf(f, "START\t%ld\t%lu\n", (long)i, (unsigned long)seed);
         fflush(f);
-        Script s = generate_script(prop, seed, tier);
-        RunResult r = run_world(s);
-        fprintf(f, "RUN\t%ld\t%lu\n%s", (long)i, (unsigned long)seed, result_to_text(r).c_str());
-        fflush(f);
-        if (r.counters.count("hang")) { fclose(f); _exit(4); }  // threads are stuck; a fresh worker continues
+        pid_t pid = fork();
+        if (pid == 0)
+        {
+            Script s = generate_script(prop, seed, tier);
+            RunResult r = run_world(s);
+            fprintf(f, "RUN\t%ld\t%lu\n%s", (long)i, (unsigned long)seed, result_to_text(r).c_str());
+            fflush(f);
+            _exit(0);
+        }
+        int st = 0;
+        if (pid < 0 || waitpid(pid, &st, 0) < 0) { fclose(f); _exit(5); }
+        if (!(WIFEXITED(st) && WEXITSTATUS(st) == 0))
+        {
+            fprintf(f, "CRASH\t%ld\t%lu\t%d\n", (long)i, (unsigned long)seed, st);
+            fflush(f);
+        }
     }
     fclose(f);
     _exit(0);
@@ -619,6 +634,21 @@ struct Batch
             auto lines = read_lines(ws[size_t(w)].path);
             for (size_t i = 0; i < lines.size();)
             {
+                if (lines[i].rfind("CRASH\t", 0) == 0)
+                {
+                    auto f = split_tab(lines[i]);
+                    int64_t idx = atoll(f[1].c_str());
+                    if (idx >= 0 && idx < runs && !recs[size_t(idx)].finished)
+                    {
+                        RunRec& rr = recs[size_t(idx)];
+                        rr.index = idx;
+                        rr.seed = strtoull(f[2].c_str(), nullptr, 10);
+                        rr.crashed = true;
+                        rr.crash_text = "run process died (status " + (f.size() > 3 ? f[3] : std::string("?")) + ")";
+                    }
+                    ++i;
+                    continue;
+                }
                 if (lines[i].rfind("RUN\t", 0) == 0)
                 {
                     auto f = split_tab(lines[i]);
